@@ -659,7 +659,7 @@ pub fn gen_spec(rng: &mut Rng, o: &GenOpts) -> Spec {
         for i in 0..n {
             let (k, v) = match g.rng.below(9) {
                 0 => ("title".to_string(), FrontVal::Str(g.rng.pick(&["Pasta al forno", "Crème brûlée", "Test 1"]).to_string())),
-                1 => ("servings".to_string(), if g.rng.coin() { FrontVal::Int(*g.rng.pick(&[1, 2, 4, 12])) } else { FrontVal::IntList(g.rng.pick(&[&[2i64, 4, 6][..], &[4, 2], &[6, 2, 4], &[8, 4, 12], &[3]]).to_vec()) }),
+                1 => (g.rng.pick(&["servings", "servings", "serves", "yield"]).to_string(), if g.rng.coin() { FrontVal::Int(*g.rng.pick(&[1, 2, 4, 12])) } else { FrontVal::IntList(g.rng.pick(&[&[2i64, 4, 6][..], &[4, 2], &[6, 2, 4], &[8, 4, 12], &[3]]).to_vec()) }),
                 2 => ("tags".to_string(), FrontVal::List(vec!["quick".into(), "vegan".into()])),
                 3 => ("time".to_string(), FrontVal::Str(g.rng.pick(&["1h30m", "45m", "2h"]).to_string())),
                 4 => ("nested".to_string(), FrontVal::Map(vec![("a".into(), "b".into()), ("c".into(), "d e".into())])),
@@ -667,7 +667,8 @@ pub fn gen_spec(rng: &mut Rng, o: &GenOpts) -> Spec {
                 6 => ("ratio".to_string(), FrontVal::Float(*g.rng.pick(&[1.5, 0.25, 10.125]))),
                 _ => (format!("key{i}"), FrontVal::Str(g.rng.pick(&["plain value", "with: colon", "# not a comment", "123abc", "été"]).to_string())),
             };
-            if !f.iter().any(|(kk, _)| *kk == k) {
+            let is_servings = |x: &str| matches!(x, "servings" | "serves" | "yield");
+            if !f.iter().any(|(kk, _)| *kk == k || (is_servings(kk) && is_servings(&k))) {
                 f.push((k, v));
             }
         }
@@ -714,11 +715,11 @@ pub fn gen_spec(rng: &mut Rng, o: &GenOpts) -> Spec {
             match g.rng.below(12) {
                 0 | 1 if arrow_meta => {
                     let key = if g.rng.chance(1, 4) {
-                        vec!["servings".to_string()]
+                        vec![g.rng.pick(&["servings", "servings", "serves", "yield"]).to_string()]
                     } else {
                         g.rng.pick(META_KEYS).split(' ').map(|s| s.to_string()).collect()
                     };
-                    let value = if key[0] == "servings" {
+                    let value = if matches!(key[0].as_str(), "servings" | "serves" | "yield") {
                         vec![g.rng.pick(&["2", "4", "2|4|8", "12", "4|2", "6|3|12", "10|5"]).to_string()]
                     } else {
                         words(g.rng, TEXT_WORDS, 1, 3)
@@ -1560,7 +1561,7 @@ impl<'a> Sp<'a> {
         } else {
             self.meta.push((key.clone(), J::String(value.clone())));
         }
-        if key == "servings" {
+        if matches!(key.as_str(), "servings" | "serves" | "yield") {
             // R22
             let parsed: Option<Vec<u32>> = value.split('|').map(|p| p.trim().parse::<u32>().ok()).collect();
             match parsed {
@@ -1627,7 +1628,7 @@ impl<'a> Sp<'a> {
                     J::Object(m.iter().map(|(a, b)| (a.clone(), J::String(b.clone()))).collect())
                 }
             };
-            if k == "servings" {
+            if matches!(k.as_str(), "servings" | "serves" | "yield") {
                 self.servings = match v {
                     FrontVal::Int(n) => Some(vec![*n as u32]),
                     FrontVal::IntList(l) => Some(l.iter().map(|x| *x as u32).collect()),
